@@ -259,13 +259,13 @@ def expected_effects(group):
     return out
 
 
-def compile_call(call, version):
+def compile_call(call, version, assemble=False):
     import pyteal as pt
     from .recipe.build import reset_pyteal_state
     reset_pyteal_state()
     try:
         ast = build_program(call)
-        return pt.compileTeal(ast, pt.Mode.Application, version=version), "ok", ""
+        return pt.compileTeal(ast, pt.Mode.Application, version=version, assembleConstants=assemble), "ok", ""
     except Exception as e:  # noqa
         name = type(e).__name__
         return None, ("rejected" if name in PYTEAL_ERRORS else "crash"), "%s: %s" % (name, str(e)[:200])
@@ -277,7 +277,7 @@ def inner_job(job: Dict[str, Any]) -> Dict[str, Any]:
     call = job["call"]
     out = {"id": job["id"], "family": job.get("family"), "version": job["version"], "status": "ok", "violations": [], "complaints": [],
            "obligations": 0, "discharged": 0, "inconclusive": 0, "ref_paths": 0, "teal_paths": 0, "ref_cut": 0, "nonfail": 0, "replayed": 0, "unconfirmed": 0}
-    teal, st, detail = compile_call(call, job["version"])
+    teal, st, detail = compile_call(call, job["version"], job.get("assemble", False))
     out["status"], out["detail"] = st, detail
     ill = any(a["kind"] == "wrong" or (a["kind"] == "txn" and a.get("given") and a["t"] != "txn" and a["given"] != a["t"]) for a in call["args"])
     base = {"call": call, "signature": sig_string(call), "version": job["version"], "job": job}
@@ -344,7 +344,7 @@ def inner_job(job: Dict[str, Any]) -> Dict[str, Any]:
         for j, bs in presets.items():
             if j < NOUTER:
                 conc["g0.ApplicationArgs[%d]" % j] = bytes(model.eval(b, model_completion=True).as_long() for b in bs)
-        teal2, st2, _ = compile_call(call, job["version"])
+        teal2, st2, _ = compile_call(call, job["version"], job.get("assemble", False))
         if st2 != "ok":
             out.setdefault("harness", []).append("recompilation failed")
             continue
